@@ -4,6 +4,7 @@ package sched
 import (
 	"fmt"
 
+	"github.com/sarchlab/akita/v5/vmap"
 	"github.com/sarchlab/akita/v5/vsched"
 
 	"verif/harness/lib"
@@ -28,6 +29,20 @@ type harness struct {
 	Horizon int
 	// OwnPanics: the harness's Check classifies panics itself.
 	OwnPanics bool
+	// NoStmtPoints: statement-level points (instr -points) are no-ops in this
+	// harness; only synchronisation operations are scheduling points.
+	NoStmtPoints bool
+	// MapDescending: instrumented map ranges (instr -maporder, sched variant:
+	// the data recorder) iterate in descending instead of ascending key order.
+	MapDescending bool
+}
+
+func applyHarnessSeams(h *harness) {
+	vsched.StmtPointsOff = h.NoStmtPoints
+	vmap.Base = vmap.Ascending
+	if h.MapDescending {
+		vmap.Base = vmap.Descending
+	}
 }
 
 // runHarness explores h under each bound in turn and records results in c.
@@ -37,6 +52,7 @@ func runHarness(c *lib.Ctx, h *harness) {
 			return
 		}
 		execs := int64(0)
+		applyHarnessSeams(h)
 		res := vsched.Explore(vsched.Options{MaxPreemptions: b, Horizon: h.Horizon, Stop: c.Expired}, h.Body, func(x *vsched.Exec) bool {
 			execs++
 			probs := stdProblems(h, x)
@@ -101,6 +117,7 @@ var TraceReplay = false
 
 func replayOne(h *harness, choices []int) []lib.Problem {
 	vsched.TraceOn = TraceReplay
+	applyHarnessSeams(h)
 	x := vsched.Run(choices, horizonOf(h), h.Body)
 	vsched.TraceOn = false
 	if TraceReplay {
